@@ -380,7 +380,7 @@ func TestVerif_C04(t *testing.T) {
 				if len(word) == maxLen && !ev.Thorough() && !selectInTx {
 					d = 0
 				}
-				seqx.Explore(seqx.Options{MaxDev: d}, func(ch *seqx.Chooser) {
+				_, complete := seqx.Explore(seqx.Options{MaxDev: d, Stop: ev.OverBudget}, func(ch *seqx.Chooser) {
 					k, w, cuts, steps := c04One(t, c, ch)
 					n++
 					ncuts += int64(cuts)
@@ -400,6 +400,10 @@ func TestVerif_C04(t *testing.T) {
 						ev.Sample("execution", map[string]interface{}{"stream": cc.Names, "config": c.Cfg, "schedule": steps, "cut_points": cuts})
 					}
 				})
+				if !complete {
+					capped = true
+					ev.Cap("time budget")
+				}
 			}
 		}
 	}
